@@ -113,7 +113,7 @@ RULE = ("MC: TLC checks C05_Auth/C05_Secrecy (and the other invariants) on Hands
         "initiator and responder under 5 identity classes, 6 payload shapes and the delivery operations. R: the state graphs of three "
         "sub-configurations (adversary initiator vs honest responder; honest initiator vs adversary responder; honest pair under "
         "replay/splice) are walked on real Machines for 2 curves x 2 ciphers until every (state, label) pair was executed; distinct = "
-        "(graph, combo, state, label). T: seeded random schedules (up to 3+4 honest machines, 4 adversary machines, byte-level random "
+        "(graph, combo, state, label). D: content tables without certificate (requireComplete). T: seeded random schedules (up to 3+4 honest machines, 4 adversary machines, byte-level random "
         "truncations/flips) judged by the reference predicates")
 ASSUMPTIONS = [
     "verdicts are one-directional (safety): every completion the real code makes must be allowed by the specification; a refusal "
@@ -142,7 +142,7 @@ def run(ctx):
         json.dump(plan, f)
     res = ctx.gotest('handshake', 'TestVerif_C05', also=('hs',), timeout=1500)
     finish(ctx, res, 'harness')
-    ctx.require_actions('Deliver', 'AdvInit', 'AdvResp', 'Initiate', 'complete', 'matrix', 'T:Deliver', 'T:complete')
+    ctx.require_actions('Deliver', 'AdvInit', 'AdvResp', 'Initiate', 'complete', 'matrix', 'T:Deliver', 'T:complete', 'table:nothing')
 
 
 META = {
